@@ -196,11 +196,17 @@ func c12Expectation(v *mval, t *mtype, allow bool) c12Expect {
 	case e.OK && allow:
 		return c12Expect{Must: "admit", Val: e.Val, RejClass: "CAST:convertible-rejected"}
 	case e.OK:
-		return c12Expect{Must: "may", Val: e.Val, Why: "structural-conversion-without-allowCasts"}
+		return c12Expect{Must: "may", Val: e.Val, Offenders: strictOffenders(v, t), Why: "structural-conversion-without-allowCasts"}
 	case c.OK:
-		return c12Expect{Must: "may", Val: c.Val, Offenders: e.Offenders, Why: "scalar-conversion-without-allowCasts"}
+		return c12Expect{Must: "may", Val: c.Val, Offenders: append(append([]offender{}, e.Offenders...), strictOffenders(v, t)...), Why: "scalar-conversion-without-allowCasts"}
 	}
-	return c12Expect{Must: "reject", Offenders: e.Offenders}
+	offs := e.Offenders
+	if !allow {
+		// without allowCasts an implementation may also stop at a component that would need a
+		// structural conversion (the statement permits, but does not demand, those)
+		offs = append(append([]offender{}, offs...), strictOffenders(v, t)...)
+	}
+	return c12Expect{Must: "reject", Offenders: offs}
 }
 
 var reAtPath = regexp.MustCompile("at `([^`]*)`")
@@ -244,6 +250,26 @@ func typeKindTag(t *mtype) string {
 	return [...]string{"int", "float", "bool", "str", "null", "any", "any-object", "range", "list", "object", "option"}[t.K]
 }
 
+// castable: v fits t after the permitted conversions (open pairs count as fitting).
+func castable(v *mval, t *mtype) bool {
+	r := refcast(v, t, true)
+	return r.OK || r.Open != ""
+}
+
+// pathShape abstracts an offender into the kinds of its path components.
+func pathShape(offs []offender) string {
+	if len(offs) == 0 {
+		return "path:-"
+	}
+	o := offs[0]
+	s := regexp.MustCompile(`\[[0-9]+\]`).ReplaceAllString(o.Path, "[i]")
+	s = regexp.MustCompile(`\.[a-z]+`).ReplaceAllString(s, ".f")
+	if o.Field != "" {
+		s += "/field"
+	}
+	return "path:" + s
+}
+
 // firstMismatch describes the innermost (value kind -> type kind) pair at which v stops
 // matching t; it is the tag that identifies a class of inputs for known-finding matching.
 func firstMismatch(v *mval, t *mtype) string {
@@ -260,28 +286,56 @@ func firstMismatch(v *mval, t *mtype) string {
 		}
 		return kindTag(v) + "->option(mismatch)"
 	case t.K == tList && v.K == mList:
-		for _, e := range v.Elems {
-			if !conforms(e, t.Elem) {
-				return firstMismatch(e, t.Elem)
+		for pass := 0; pass < 2; pass++ {
+			for _, e := range v.Elems {
+				if (pass == 0 && !castable(e, t.Elem)) || (pass == 1 && !conforms(e, t.Elem)) {
+					return firstMismatch(e, t.Elem)
+				}
 			}
 		}
 		return "list->list"
 	case t.K == tObj && v.K == mObj:
-		for i, k := range v.Keys {
-			ft := t.fieldType(k)
-			if ft == nil {
+		for _, k := range v.Keys {
+			if t.fieldType(k) == nil {
 				return "object:extra-field"
-			}
-			if !conforms(v.Vals[i], ft) {
-				return firstMismatch(v.Vals[i], ft)
 			}
 		}
 		if len(v.Keys) != len(t.FNames) {
 			return "object:missing-field"
 		}
+		for pass := 0; pass < 2; pass++ {
+			for i, k := range v.Keys {
+				ft := t.fieldType(k)
+				if (pass == 0 && !castable(v.Vals[i], ft)) || (pass == 1 && !conforms(v.Vals[i], ft)) {
+					return firstMismatch(v.Vals[i], ft)
+				}
+			}
+		}
 		return "object->object"
 	}
 	return kindTag(v) + "->" + typeKindTag(t)
+}
+
+// c12Report emits the failures of one observation. The tag that identifies the class of
+// inputs depends on the failure class: the mismatch shape for admission / result failures,
+// the shape of the offender's path for message failures, nothing for "not catchable".
+func c12Report(r *Result, fails [][2]string, base []string, v *mval, t *mtype, ex c12Expect, cas string) {
+	for _, f := range fails {
+		tags := append([]string{}, base...)
+		switch {
+		case f[0] == "CAST:error-path":
+			// named:none - the message carries no path at all; named:wrong - it names another one
+			named := "named:none"
+			if i := strings.Index(f[1], "does not name"); i >= 0 && reAtPath.MatchString(f[1][:i]) {
+				named = "named:wrong"
+			}
+			tags = append(tags, pathShape(ex.Offenders), named)
+		case f[0] == "CAST:not-catchable":
+		default:
+			tags = append(tags, "shape:"+firstMismatch(v, t))
+		}
+		capFail(r, f[0], tags, cas, f[1])
+	}
 }
 
 // ---------------------------------------------------------------- direct route
@@ -353,10 +407,10 @@ func c12Direct(tier string, idx int, r *Result) {
 			}
 			r.Trans(1)
 			cas := fmt.Sprintf("%s/value.DeepCast(%s, `%s`, allowCasts=%v)", map[string]string{"vm": "runtime", "tree": "interpreter"}[lib], v, t, allow)
-			tags := []string{"route:direct", "lib:" + lib, "allow:" + strconv.FormatBool(allow), "shape:" + firstMismatch(v, t)}
+			tags := []string{"route:direct", "lib:" + lib, "allow:" + strconv.FormatBool(allow)}
 			if pclass != "" {
 				r.Outcome("panic")
-				r.Fail(pclass, tags, cas, "Go panic inside DeepCast")
+				c12Report(r, [][2]string{{pclass, "Go panic inside DeepCast"}}, tags, v, t, ex, cas)
 				continue
 			}
 			outcome := "rejected"
@@ -365,12 +419,11 @@ func c12Direct(tier string, idx int, r *Result) {
 			}
 			r.Outcome(ex.Must + "/" + outcome)
 			r.Distinct(fmt.Sprintf("%s|%v|%s|%s|%s|%s", lib, allow, firstMismatch(v, t), ex.Must, outcome, o.Res))
-			for _, f := range c12Judge(ex, t, v, o.Admitted, o.Res, o.ResErr, o.Msg, true) {
-				r.Fail(f[0], tags, cas, f[1])
-			}
+			fails := c12Judge(ex, t, v, o.Admitted, o.Res, o.ResErr, o.Msg, true)
 			if o.After != nil && !mEqual(o.After, v) {
-				r.Fail("CAST:input-mutated", tags, cas, fmt.Sprintf("input after the call: %s", o.After))
+				fails = append(fails, [2]string{"CAST:input-mutated", fmt.Sprintf("input after the call: %s", o.After)})
 			}
+			c12Report(r, fails, tags, v, t, ex, cas)
 			if ex.Must == "open" || ex.Must == "may" {
 				r.Note("open:"+ex.Why+":"+outcome, 1)
 			}
@@ -582,7 +635,16 @@ const c12Tail = "|after 3\n"
 func c12JudgeProgram(ex c12Expect, t *mtype, v *mval, o Obs, pathCapable bool) (fails [][2]string, outcome string) {
 	add := func(class, detail string) { fails = append(fails, [2]string{class, detail}) }
 	if cc := crashClass(o); cc != "" {
-		return [][2]string{{cc, o.String()}}, "crash"
+		if !strings.HasPrefix(o.Out, "ok ") {
+			return [][2]string{{cc, o.String()}}, "crash"
+		}
+		// the cast admitted the value and the typed code that followed crashed the host
+		if ex.Must == "reject" {
+			add("CAST:admitted-nonconforming", fmt.Sprintf("value %s does not conform to `%s` (offending: %s) but was admitted; the typed code using it then crashed the host: %s", v, t, offString(ex.Offenders), o.String()))
+		} else {
+			add("CAST:admitted-value-wrong", fmt.Sprintf("the admitted value (expected %s) crashed the typed code using it: %s", ex.Val, o.String()))
+		}
+		return fails, "admitted-then-crash"
 	}
 	switch {
 	case o.Class == "ok" && strings.HasPrefix(o.Out, "ok "):
@@ -660,18 +722,14 @@ func c12ProgScenario(rt c12Route) Scenario {
 				return
 			}
 			ex := c12Expectation(v, t, rt.Allow)
-			tags := []string{"route:" + rt.Name, "form:" + rt.Form, "src:" + rt.Src, "shape:" + firstMismatch(v, t)}
+			tags := []string{"route:" + rt.Name}
 			ot := RunTree(a, defaultOpts())
 			fails, outT := c12JudgeProgram(ex, t, v, ot, false)
-			for _, f := range fails {
-				r.Fail(f[0], append([]string{"backend:tree"}, tags...), cas, f[1])
-			}
+			c12Report(r, fails, append([]string{"backend:tree"}, tags...), v, t, ex, cas)
 			ov := RunVM(a, defaultOpts())
 			r.Obs(ov)
 			fails, outV := c12JudgeProgram(ex, t, v, ov, true)
-			for _, f := range fails {
-				r.Fail(f[0], append([]string{"backend:vm"}, tags...), cas, f[1])
-			}
+			c12Report(r, fails, append([]string{"backend:vm"}, tags...), v, t, ex, cas)
 			r.Trans(4)
 			r.Outcome(ex.Must + "/vm:" + outV + "/tree:" + outT)
 			r.Distinct(rt.Name + "|" + firstMismatch(v, t) + "|" + ex.Must + "|" + outV + "|" + outT + "|" + ov.Out)
@@ -747,7 +805,7 @@ func c12SpawnArg(tier string, idx int, r *Result) {
 		return
 	}
 	ex := c12Expectation(v, t, false)
-	tags := []string{"route:spawn-arg", "backend:vm", "shape:" + firstMismatch(v, t)}
+	tags := []string{"route:spawn-arg", "backend:vm"}
 	inv := runtime.FunctionInvocation{Function: "f", Args: []value.Value{*toRV(v)}, FunctionSignature: runtime.FunctionInvocationSignature{
 		Params:     []runtime.FunctionInvocationSignatureParam{{Ident: "x", Type: t.astType()}},
 		ReturnType: ast.NewNullType(noSpan),
@@ -773,14 +831,23 @@ func c12SpawnArg(tier string, idx int, r *Result) {
 }
 
 // c12HostOutcome is the shared part of the two host-boundary routes.
-func c12HostOutcome(ex c12Expect, t *mtype, v *mval, o Obs, hp string, tags []string, cas string, r *Result, admittedCheck func() [][2]string) string {
-	if cc := crashClass(o); cc != "" {
-		r.Fail(cc, tags, cas, o.String())
+func c12HostOutcome(ex c12Expect, t *mtype, v *mval, o Obs, hp string, tags []string, cas string, r *Result, admittedCheck func() [][2]string) (outcome string) {
+	var fails [][2]string
+	add := func(class, detail string) { fails = append(fails, [2]string{class, detail}) }
+	defer func() {
+		c12Report(r, fails, tags, v, t, ex, cas)
+		if ex.Must == "open" || ex.Must == "may" {
+			r.Note("open:"+ex.Why+":"+outcome, 1)
+		}
+	}()
+	admittedThenCrash := crashClass(o) != "" && strings.HasPrefix(o.Out, "ok ")
+	if cc := crashClass(o); cc != "" && !admittedThenCrash {
+		add(cc, o.String())
 		return "crash"
 	}
 	if hp != "" {
 		if !isRefusal(hp) {
-			r.Fail("HOST-PANIC:"+panicFunc(o.PanicSite)+":"+normMsg(hp), tags, cas, hp)
+			add("HOST-PANIC:"+panicFunc(o.PanicSite)+":"+normMsg(hp), hp)
 			return "crash"
 		}
 		r.Note("host-boundary-refusal-is-a-go-panic-on-the-calling-goroutine", 1)
@@ -788,33 +855,25 @@ func c12HostOutcome(ex c12Expect, t *mtype, v *mval, o Obs, hp string, tags []st
 			hp = hp[i:]
 		}
 		if ex.Must == "admit" {
-			r.Fail(ex.RejClass, tags, cas, fmt.Sprintf("expected %s to be admitted as `%s`; refused: %s", v, t, firstN(hp, 300)))
+			add(ex.RejClass, fmt.Sprintf("expected %s to be admitted as `%s`; refused: %s", v, t, firstN(hp, 300)))
 		} else if (ex.Must == "reject" || ex.Must == "may") && !pathNamed(hp, ex.Offenders) {
-			r.Fail("CAST:error-path", tags, cas, fmt.Sprintf("refusal %q does not name the offending component %s", firstN(hp, 300), offString(ex.Offenders)))
-		}
-		if ex.Must == "open" || ex.Must == "may" {
-			r.Note("open:"+ex.Why+":refused", 1)
+			add("CAST:error-path", fmt.Sprintf("refusal %q does not name the offending component %s", firstN(hp, 300), offString(ex.Offenders)))
 		}
 		return "refused"
 	}
-	if o.Class != "ok" {
+	if o.Class != "ok" || admittedThenCrash {
 		if ex.Must == "reject" {
-			r.Fail("CAST:admitted-nonconforming", tags, cas, fmt.Sprintf("value %s does not conform to `%s` (offending: %s) but the call was performed and ended with %s", v, t, offString(ex.Offenders), o.String()))
+			add("CAST:admitted-nonconforming", fmt.Sprintf("value %s does not conform to `%s` (offending: %s) but the call was performed and ended with %s", v, t, offString(ex.Offenders), o.String()))
 		} else {
-			r.Fail("CAST:admitted-value-wrong", tags, cas, "the call was admitted but ended abnormally: "+o.String())
+			add("CAST:admitted-value-wrong", fmt.Sprintf("the call was admitted (expected value %s) but ended abnormally: %s", ex.Val, o.String()))
 		}
 		return "admitted-then-" + o.Class
 	}
 	if ex.Must == "reject" {
-		r.Fail("CAST:admitted-nonconforming", tags, cas, fmt.Sprintf("value %s does not conform to `%s` (offending: %s) but the call was performed: %s", v, t, offString(ex.Offenders), o.String()))
+		add("CAST:admitted-nonconforming", fmt.Sprintf("value %s does not conform to `%s` (offending: %s) but the call was performed: %s", v, t, offString(ex.Offenders), o.String()))
 		return "admitted"
 	}
-	for _, f := range admittedCheck() {
-		r.Fail(f[0], tags, cas, f[1])
-	}
-	if ex.Must == "open" || ex.Must == "may" {
-		r.Note("open:"+ex.Why+":admitted", 1)
-	}
+	fails = append(fails, admittedCheck()...)
 	return "admitted"
 }
 
@@ -833,6 +892,11 @@ func c12SpawnRet(tier string, idx int, r *Result) {
 		r.Note("route-spawn-ret-inapplicable:no-typed-literal", 1)
 		return
 	}
+	if t.K == tNull {
+		// the host declares that it takes no value from the call: nothing crosses the boundary
+		r.Note("route-spawn-ret-inapplicable:host-expects-no-value", 1)
+		return
+	}
 	text := fmt.Sprintf("fn f() -> %s {\n    %s\n}\nfn main() {}\n", st, lit)
 	cas := fmt.Sprintf("// host: vm.SpawnSync(f, signature () -> %s)\n%s", t, text)
 	r.Sample(cas)
@@ -842,7 +906,7 @@ func c12SpawnRet(tier string, idx int, r *Result) {
 		return
 	}
 	ex := c12Expectation(v, t, false)
-	tags := []string{"route:spawn-ret", "backend:vm", "shape:" + firstMismatch(v, t)}
+	tags := []string{"route:spawn-ret", "backend:vm"}
 	inv := runtime.FunctionInvocation{Function: "f", Args: []value.Value{}, FunctionSignature: runtime.FunctionInvocationSignature{
 		Params: []runtime.FunctionInvocationSignatureParam{}, ReturnType: t.astType(),
 	}}
